@@ -235,7 +235,7 @@ func init() {
 		ID: "C09", Level: "exploration",
 		Rule: "one case = one generated history executed by instance A (never stopped) and instance B (goleveldb) which is closed and re-created from disk at a seed-chosen set of block boundaries (single, double, and every-block restarts; around payouts, period starts, price updates, version votes, pruning); compared per height: all responses, validator updates, max gas, app hash; at every restart point and at the end: Info, emission, versions, validators record, reward-price record, events of the last heights, live export and from-disk export; one evaluation = one restart point fully compared; distinct = (number of restarts, kind of the block before the restart)",
 		Assumptions: []string{"a clean stop (DB handles closed) at a block boundary; crash points are C10's business", "chains start at initial height > 1 (see DESIGN.md on initial height 1)"},
-		Quick: 36, Thorough: 1200, MinEval: 150, MinDistinct: 8, MaxWorkers: 12,
+		Quick: 36, Thorough: 360, MinEval: 150, MinDistinct: 8, MaxWorkers: 12,
 		Run: func(ctx *WorkCtx, idx int) {
 			r := Rng(ctx.Seed, "C09", idx)
 			sc := StdScenario(idx, r, 90)
